@@ -297,7 +297,14 @@ def potential_case(api, rng, mname, spec, family, k, points, ncoef=2, name=None)
     return {"name": name or "%s/%s%d%s/%s" % (mname, spec[0], spec[1], "seg" if spec[2] else "", family),
             "family": family, "mesh": mname, "k": None if k is None else frc(k),
             "grid": grid_dump(space.grid), "space": space_dump(space),
-            "supp": [int(x) for x in loc.support_elements], "nmult": [fr(x) for x in loc.normal_multipliers],
+            # the model takes support and normal multipliers from the user's space; that the localised space handed
+            # to the kernels inherits them is part of the model (localised_space) and corresponded separately
+            "supp": [int(x) for x in space.support_elements], "nmult": [fr(x) for x in space.normal_multipliers],
+            "loc": {"l2g": [[int(x) for x in r] for r in loc.local2global],
+                    "mult": [[fr(x) for x in r] for r in loc.local_multipliers],
+                    "nmult": [fr(x) for x in loc.normal_multipliers],
+                    "supp": [int(x) for x in loc.support_elements], "nE": int(space.grid.number_of_elements),
+                    "is_self": bool(loc is space)},
             "dt": dof_transformation_dump(space), "requires_dt": bool(space.requires_dof_transformation),
             "quad": quad_dump(qp, qw), "surr": surr_dump(surr),
             "points": [[fr(x) for x in p] for p in points],
